@@ -117,12 +117,18 @@ func (t *Input) CoerceIn(v interface{}) (interface{}, error) {
 			ov, has := tv[k]
 			if ov == nil {
 				if f.Default != nil && !has { // if not set then add the default value if not nil
+					// A copy is used since the value can be coerced again
+					// and coercing fills in defaults in place. The default
+					// is part of the schema and must not change, an object
+					// default on a field of the input's own type would
+					// otherwise end up containing itself.
+					dv := copyValue(f.Default)
 					if rt != nil {
-						if err := t.reflectSetKey(rv, k, f.Default); err != nil {
+						if err := t.reflectSetKey(rv, k, dv); err != nil {
 							return nil, inErr(err, k)
 						}
 					} else {
-						tv[k] = f.Default
+						tv[k] = dv
 					}
 				} else if _, ok := f.Type.(*NonNull); ok {
 					return nil, fmt.Errorf("%s is required but missing", k)
